@@ -336,6 +336,23 @@ pub fn compare(ex: &Expect, st: &ConfigState, t: &mut Tally) {
         t.field(obj, "load_metric", &got["load_metric"], lm, None, false, &id);
         // "`None` (field absent) inherits the global default"
         t.field(obj, "max_connections_per_ip", &got["max_connections_per_ip"], o("max_connections_per_ip"), Some(json!(g_mcpi.unwrap_or(0))), true, &id);
+            match &c.health_check {
+            Some((uri, ho)) => {
+                let h = &got["health_check"];
+                if h.is_null() {
+                    t.fail(format!("state/{obj}_health_check_dropped"), format!("cluster {id}: [health_check] declared, none loaded"));
+                } else {
+                    t.field(obj, "health_check.uri", &h["uri"], Some(json!(uri)), None, false, &id);
+                    for (k, d) in [("interval", 10), ("timeout", 5), ("healthy_threshold", 3), ("unhealthy_threshold", 3), ("expected_status", 0)] {
+                        t.field(obj, &format!("health_check.{k}"), &h[k], ho.get(k).map(|v| v.json()), Some(json!(d)), false, &id);
+                    }
+                }
+            }
+            None => t.field(obj, "health_check", &got["health_check"], None, None, false, &id),
+        }
+        if !c.http {
+            t.field(obj, "retry_after", &got["retry_after"], o("retry_after"), g_retry.map(|v| json!(v)), true, &id);
+        }
         if c.http {
             t.field(obj, "sticky_session", &got["sticky_session"], o("sticky_session"), None, false, &id);
             t.field(obj, "https_redirect", &got["https_redirect"], o("https_redirect"), None, false, &id);
@@ -346,20 +363,6 @@ pub fn compare(ex: &Expect, st: &ConfigState, t: &mut Tally) {
             t.field(obj, "retry_after", &got["retry_after"], o("retry_after"), g_retry.map(|v| json!(v)), true, &id);
             t.field(obj, "answer_503", &got["answer_503"], c.answer_503.as_ref().map(|(_, body)| json!(body)), None, false, &id);
             answers_check(t, obj, &id, &got["answers"], &c.answers, &[]);
-            match &c.health_check {
-                Some((uri, ho)) => {
-                    let h = &got["health_check"];
-                    if h.is_null() {
-                        t.fail("state/http_cluster_health_check_dropped".to_owned(), format!("cluster {id}: [health_check] declared, none loaded"));
-                    } else {
-                        t.field(obj, "health_check.uri", &h["uri"], Some(json!(uri)), None, false, &id);
-                        for (k, d) in [("interval", 10), ("timeout", 5), ("healthy_threshold", 3), ("unhealthy_threshold", 3), ("expected_status", 0)] {
-                            t.field(obj, &format!("health_check.{k}"), &h[k], ho.get(k).map(|v| v.json()), Some(json!(d)), false, &id);
-                        }
-                    }
-                }
-                None => t.field(obj, "health_check", &got["health_check"], None, None, false, &id),
-            }
             t.field(obj, "proxy_protocol", &got["proxy_protocol"], None, None, false, &id);
         } else {
             // PROXY protocol section of the documentation: send_proxy alone = send, listener
